@@ -27,7 +27,7 @@ func TestMain(m *testing.M) {
 		"rapid state machine of Store / Load / LoadLatest over 3 adversarial ids x 5 overlapping timestamps with records of arbitrary binary keys (1-300 bytes), revoked on/off, with/without parent meta, against a reference table, for: "+
 			"MemoryMetastore; SQLMetastore (mysql, postgres, oracle placeholder dialects) over a fake database/sql driver that INTERPRETS the statements against the documented schema (PRIMARY KEY(id, created), second-resolution TIMESTAMP, dialect-specific placeholders); "+
 			"both DynamoDB metastores (SDK v1 and v2) over one semantic fake that evaluates condition / key-condition / projection expressions with their name and value maps, honours ScanIndexForward and Limit, knows only the configured table and is eventually consistent unless ConsistentRead is set; "+
-			"table names and region suffix drawn. One Store in seven is issued with an already cancelled / expired context (it may fail, but never reports a duplicate as stored, never touches an existing row, and true still means stored). Plus 16 goroutines sharing one metastore object and reading different ids at the same time (each gets its own id's newest / exact record), and a concurrent same-key Store race on MemoryMetastore. "+
+			"table names and region suffix drawn. Reads are occasionally issued with a cancelled context first (they may fail; the reads that follow must not). One Store in seven is issued with an already cancelled / expired context (it may fail, but never reports a duplicate as stored, never touches an existing row, and true still means stored). Plus 16 goroutines sharing one metastore object and reading different ids at the same time (each gets its own id's newest / exact record), and a concurrent same-key Store race on MemoryMetastore. "+
 			"Oracle: Store returns true exactly when (id, created) was absent and never changes an existing row; Load returns the persisted fields or nil,nil; LoadLatest returns the greatest created; every completed Store is visible to every later read; GetRegionSuffix = region iff enabled. "+
 			"One evaluation = one sequence on one backend. Non-trivial = contains a duplicate Store and a LoadLatest over >= 2 versions; distinct = (backend, operation sequence)",
 		"the fakes' reading of DynamoDB / SQL semantics is the trusted base; no real database", "EnvelopeKeyRecord.ID is documented as not persisted (json:\"-\") and is not compared")
@@ -233,6 +233,21 @@ func TestModel(t *testing.T) {
 					model[id][created] = r
 				}
 			case 4, 5, 6: // Load
+				if rapid.IntRange(0, 7).Draw(t, "deadReadCtx") == 3 {
+					// a read whose caller has already given up may fail - and changes nothing for later reads
+					dead, cancel := context.WithCancel(ctx)
+					cancel()
+					trace = append(trace, fmt.Sprintf("Load[dead ctx](%q,%d)", id, created))
+					if got, err := b.ms.Load(dead, id, created); err == nil && got != nil {
+						if want, exists := model[id][created]; !exists {
+							bad("Load with a cancelled context returned a record for an absent (id, created)")
+						} else if d := same(want, got); d != "" {
+							bad("Load with a cancelled context returned a record that differs from the stored one: %s", d)
+						}
+					}
+					trace = append(trace, fmt.Sprintf("LoadLatest[dead ctx](%q)", id))
+					_, _ = b.ms.LoadLatest(dead, id)
+				}
 				trace = append(trace, fmt.Sprintf("Load(%q,%d)", id, created))
 				got, err := b.ms.Load(ctx, id, created)
 				want, exists := model[id][created]
